@@ -306,9 +306,9 @@ Next ==
     \/ C("cmp")  /\ \E s \in Srcs, t \in Srcs : Cmp(s, t)
     \/ C("cmp")  /\ \E s \in Srcs, w \in {0, 1} : AsBytes(s, w)
 
-(* the model checker expands states with at most MaxDepth views and untouched memory.  This is an ACTION  *)
-(* constraint on the source state: the successors (one view deeper, or with a written cell) are still    *)
-(* generated, checked against the invariants and written out by Emit; they are just not expanded.        *)
+(* the model checker expands states with at most MaxDepth views and untouched memory (SpecB below).  It is *)
+(* a condition on the source state: the successors (one view deeper, or with a written cell) are still     *)
+(* generated, checked against the invariants and written out by Emit; they are just not expanded.          *)
 SrcBound == Len(views) <= MaxDepth /\ parent = Cells(N)
 
 (* S->C enumeration: every transition out of a state is written as one JSON line (pre-state and call); *)
@@ -319,13 +319,15 @@ TopOnly == ("s" \notin DOMAIN last'.a) \/ last'.a.s \in {0, Len(views)}
 (* calls that build a view from the memory do not depend on the views already there: written once, from the empty stack *)
 CtorOps == {"FromPtrCount", "FromPtrPair", "FromArray", "FromStdArray", "FromContainer", "MakeSpan", "Default", "Nm"}
 FreshOnly == (last'.op \in CtorOps \/ (last'.op = "ConstFrom" /\ last'.a.s = 0)) => views = <<>>
-Emit == /\ SrcBound
-        /\ (last'.op \in EmitOps /\ (mk = "heap" \/ last'.op \in MemOps) /\ TopOnly /\ FreshOnly) =>
+Emit == /\ (last'.op \in EmitOps /\ (mk = "heap" \/ last'.op \in MemOps) /\ TopOnly /\ FreshOnly) =>
             PrintT("@E@" \o ToJson([m |-> mode, p |-> pre', l |-> [op |-> last'.op, a |-> last'.a]]))
 
 DepthBound == Len(views) <= MaxDepth
 
 Spec == Init /\ [][Next]_vars
+(* the bounded exploration used for model checking and S->C enumeration: only states inside SrcBound are expanded *)
+NextB == SrcBound /\ Next
+SpecB == Init /\ [][NextB]_vars
 
 ----------------------------------------------------------------------------
 (* Theorems of the specification itself *)
